@@ -123,7 +123,7 @@ theorem C02_unrelated_write_partial (fuel cap : Nat) (P : Prog) (pre : List Op) 
     (hflat : Flat P) (hfuel : 1 ≤ fuel) (hclean : CleanCalls fuel cap P (pre ++ [.call f a]))
     (hop : (∃ v, op = .set k v) ∨ op = .rem k)
     (hk : ∀ r, alookup (after fuel cap P (pre ++ [.call f a])).derived (nodeOf P f a) = some r →
-          ∀ d, d ∈ r.deps → d.node ≠ .source (.src k)) :
+          ∀ d, d ∈ r.deps → d.node ≠ .source (.src k) ∧ d.node ≠ .absent (.src k)) :
     (after fuel cap P (pre ++ [.call f a, op, .call f a])).runs = (after fuel cap P (pre ++ [.call f a, op])).runs ∧
     (after fuel cap P (pre ++ [.call f a, op, .call f a])).log = (after fuel cap P (pre ++ [.call f a, op])).log := by
   have hinv : Inv1 P (after fuel cap P pre) := by
@@ -147,7 +147,7 @@ theorem C02_unrelated_write_partial (fuel cap : Nat) (P : Prog) (pre : List Op) 
 example : Flat [⟨0, .add (.src .param) (.sing 0)⟩] ∧
     CleanCalls 4 10 [⟨0, .add (.src .param) (.sing 0)⟩] ([.set 0 4, .set 1 1, .sset 0 2] ++ [.call 0 0]) ∧
     (∀ r, alookup (after 4 10 [⟨0, .add (.src .param) (.sing 0)⟩] ([.set 0 4, .set 1 1, .sset 0 2] ++ [.call 0 0])).derived ⟨0, 0⟩ = some r →
-      ∀ d, d ∈ r.deps → d.node ≠ .source (.src 1)) :=
+      ∀ d, d ∈ r.deps → d.node ≠ .source (.src 1) ∧ d.node ≠ .absent (.src 1)) :=
   ⟨by decide, cleanCalls_of_B _ _ _ _ (by decide +kernel), by
     intro r hr; have : r = ⟨7, 1, 1, [⟨.source (.src 0), 1⟩, ⟨.source (.sing 0), 1⟩]⟩ := by
       have h2 : alookup (after 4 10 [⟨0, .add (.src .param) (.sing 0)⟩] ([.set 0 4, .set 1 1, .sset 0 2] ++ [.call 0 0])).derived ⟨0, 0⟩ =
